@@ -20,10 +20,11 @@ SPECS = {
                 text="Per emitted program and storage option set: inductive invariant (0<=counter<=capacity, allocation size, live/NULL never dangling, NUL terminator at counter) established by start() "
                      "and preserved by every path of every case of feed and end; every array read/write index in bounds and through a live pointer; memcpy lengths within source literal and destination; "
                      "free() releases every heap string exactly once and NULLs it; counters fit their declared types."),
-    "C10": dict(families={"protocol", "coherence", "chunk", "consume"}, level="proof",
+    "C10": dict(families={"protocol", "coherence", "chunk", "consume", "end", "endfx"}, level="proof",
                 text="Per emitted program: every return OK in feed is proved to happen only with start == end; FAIL leaves an absorbing state and does not advance; DONE/FINISH do not advance (pointer on the last byte read); "
                      "a yield returns after the advance exactly when the transition consumes. "
-                     "The per-block reasoning assumes state->state == N on entry to block N; that lemma (label/state coherence of every goto) is discharged here as well."),
+                     "The per-block reasoning assumes state->state == N on entry to block N; that lemma (label/state coherence of every goto) is discharged here as well. "
+                     "The result code of end() (DONE / finish code exactly when the machine is complete after the end-of-input step, FAIL otherwise) is the `end` family, discharged here too."),
     "C17": dict(families={"end", "endfx", "coherence"}, level="proof",
                 text="Per emitted program with EOF support: for every state the end() block performs the abstract machine's end-of-input step (actions, fall-through chain) and returns DONE iff the machine ends in an accepting state "
                      "(finish code if the actions finish), FAIL otherwise."),
